@@ -1,6 +1,7 @@
 import CoxeterVerif.Driver.Proto
 import CoxeterVerif.Model.Inside3D
 import CoxeterVerif.Spec.Inside3D
+import CoxeterVerif.Spec.Inside3DCheck
 
 namespace OpsC05
 open Inside3D
@@ -133,6 +134,35 @@ def run (α : Type) [Scalar α] [Codec α] (op : String) (c : Ctx) : Option (Rd 
         let cen : V3 α ← Rd.v3 c
         let pts ← rdPts
         pure (Out.bools (Ellipsoid.isInsideArg a b cc cen pts))
+  | "spec.in3.spheroexact" => some do
+      -- in: V, r, core weights, core facet triangles (tri, index of its face), faces: each
+      --     n(3) d, pts, prism equations, prism weights, prism facet triangles (tri, index into the prism's equations)
+      -- out: spheroExactCheck, exactFacetsCheck of the core, number of faces failing faceCheck, number of failing pairs
+      -- (Q mode: the hypothesis of `sphero_inside_iff_checked`, decided exactly)
+      let V : List (V3 α) ← Rd.list c (Rd.v3 c)
+      let r : α ← Rd.sc c
+      let ws : List α ← Rd.list c (Rd.sc c)
+      let F0 : List (Tri α × Nat) ← Rd.list c (do let t ← Rd.tri (α := α) c; let k ← Rd.nat c; pure (t, k))
+      let Fs : List (Spec.In3D.FaceC α) ← Rd.list c (do
+        let n ← Rd.v3 (α := α) c; let d ← Rd.sc (α := α) c
+        let pts ← Rd.list c (Rd.v3 (α := α) c)
+        let peqs : List (Plane α) ← Rd.list c (Rd5.plane c)
+        let pws ← Rd.list c (Rd.sc (α := α) c)
+        let pa := peqs.toArray
+        let pF : List (Tri α × V3 α × α) ← Rd.list c (do
+          let t ← Rd.tri (α := α) c; let k ← Rd.nat c
+          let e := pa.getD k ⟨V3.zero, Scalar.lit 0⟩
+          pure (t, e.n, e.d))
+        pure (⟨n, d, peqs.map fun e => (e.n, e.d), pts, pws, pF⟩ : Spec.In3D.FaceC α))
+      let fa := Fs.toArray
+      let F : List (Tri α × V3 α × α) := F0.map fun tk =>
+        match fa[tk.2]? with
+        | some f => (tk.1, f.n, f.d)
+        | none => (tk.1, V3.zero, Scalar.lit 0)
+      let eqs := Fs.map fun f => (f.n, f.d)
+      let badF := (Fs.filter fun f => !(Spec.In3D.faceCheck V r f)).length
+      let badP := (Fs.map fun f => (Fs.filter fun g => !(Spec.In3D.pairCheck V f g)).length).sum
+      pure s!"{Out.bool (Spec.In3D.spheroExactCheck V r Fs ws F)} {Out.bool (Spec.In3D.exactFacetsCheck V eqs ws F)} {Out.int badF} {Out.int badP}"
   | "spec.in3.ray" => some do
       -- in: surface triangles S, apex o, points
       -- out: closedCheck S, then per point: offCone (cone o S) p, rayWinding o S p
